@@ -22,7 +22,9 @@ Qed.
 Lemma conflictingb_spec : forall a1 a2, conflictingb a1 a2 = true <-> conflicting a1 a2.
 Proof.
   intros. unfold conflictingb, conflicting.
-  rewrite !andb_true_iff, orb_true_iff, !negb_true_iff, String.eqb_eq. tauto.
+  destruct (String.eqb_spec (a_var a1) (a_var a2)) as [E|E].
+  - rewrite !andb_true_iff, orb_true_iff, !negb_true_iff. tauto.
+  - split; [discriminate|]. intros [H _]. contradiction.
 Qed.
 
 Lemma is_synced_true : forall a, is_synced a = true <-> a_mode a = Synced.
@@ -63,7 +65,7 @@ Lemma pair_okb_spec : forall L a1 a2,
   pair_okb L a1 a2 = true <-> (conflicting a1 a2 -> ~ exempt L a1 a2 -> protected a1 a2).
 Proof.
   intros. unfold pair_okb.
-  destruct (conflictingb a1 a2) eqn:Hc; destruct (exemptb L a1 a2) eqn:He; simpl.
+  destruct (conflictingb a1 a2) eqn:Hc; destruct (exemptb L a1 a2) eqn:He; cbn [negb andb implb].
   - split; [|reflexivity]. intros _ _ Hne. exfalso. apply Hne. apply exemptb_spec. exact He.
   - rewrite protectedb_spec. split.
     + intros H _ _. exact H.
@@ -97,7 +99,7 @@ Proof.
     inversion Heq; subst. apply filter_In in Hy. destruct Hy as [Hy Hb].
     apply negb_true_iff in Hb. split; [exact Hx|]. split; [exact Hy|].
     unfold pair_okb in Hb.
-    destruct (conflictingb a1 a2) eqn:Hc; destruct (exemptb L a1 a2) eqn:He; simpl in Hb; try discriminate.
+    destruct (conflictingb a1 a2) eqn:Hc; destruct (exemptb L a1 a2) eqn:He; try discriminate.
     split; [apply conflictingb_spec; exact Hc|]. split.
     + intro Hx'. apply exemptb_spec in Hx'. congruence.
     + intro Hp. apply protectedb_spec in Hp. congruence.
@@ -110,8 +112,11 @@ Qed.
 Theorem violatesb_sound : forall T v f1 f2, violatesb T v f1 f2 = true -> violates T v f1 f2.
 Proof.
   intros T v f1 f2 H. unfold violatesb in H. apply existsb_exists in H. destruct H as [a1 [H1 H]].
+  destruct (a_var a1 =? v) eqn:Hv; [|discriminate].
+  destruct (a_func a1 =? f1) eqn:Hf1; [|discriminate].
   apply existsb_exists in H. destruct H as [a2 [H2 H]].
-  rewrite !andb_true_iff in H. destruct H as [[[[Hv Hf1] Hf2] Hc] Hp].
+  destruct (a_func a2 =? f2) eqn:Hf2; [|discriminate].
+  destruct (conflictingb a1 a2) eqn:Hc; [|discriminate]. rename H into Hp.
   apply String.eqb_eq in Hv, Hf1, Hf2. apply conflictingb_spec in Hc. apply negb_true_iff in Hp.
   exists a1, a2. repeat (split; [assumption|]).
   intro Hx. apply protectedb_spec in Hx. congruence.
